@@ -2,8 +2,10 @@ CONSTANTS
   NV = 4
   MaxE = 5
   Lens = {1, 2}
+  TermNs = {0, 1, 2, 3}
+  Lean = FALSE
 INIT Init
 NEXT Next
-INVARIANTS ContractHolds AtEnd
+INVARIANTS ContractHolds AtEnd OverK
 PROPERTIES Terminates
 CHECK_DEADLOCK FALSE
